@@ -5,7 +5,9 @@
    Keys: a private key is 32 bytes (+ "0"/"1" compression flag where the API looks at it), a public key
    is SEC1 bytes (33 or 65).  Invalid key arguments make the driver's constructors fail: both sides say ERR.
 
-     ecies.encrypt  a bpub msg excl          -> OK:<serialised>;<iv>;<ke>;<km>
+     ecies.encrypt  a comp bpub msg excl     -> OK:<serialised>;<iv>;<ke>;<km>   (sender key with compress_public_key(comp);
+                                                the flag must not change anything: the embedded key is always compressed)
+     ecies.encrypt_wif wif bpub msg excl     -> the same with the sender key read by PrivateKey::from_wif (Model/Keys.v)
      ecies.decrypt  b apub ser haspk         -> OK:<message>          (from_bytes, then decrypt)
      ecies.parse    ser haspk                -> OK:<to_bytes>;<pub|->;<body>;<mac>;<extract_public_key: pub|ERR>
      ecies.flip     b apub ser haspk bit     -> <decrypt of ser>,<decrypt of ser with that bit flipped>
@@ -14,7 +16,7 @@
      ecies.ephemeral b msg                   -> OK:<message>;<1 iff two calls embed different sender keys>
                                                 (random sender key: behavioural round trip through bytes; the model runs one fixed
                                                  ephemeral scalar, any valid one gives the same output by C11_decrypt_with_extracted_key) *)
-From BSV Require Import Base.Hex Prim.Secp256k1 Prim.Sha256 Model.EcIface Model.HashApi Model.AesApi Model.Ecies Spec.Bie1.
+From BSV Require Import Base.Hex Prim.Secp256k1 Prim.Sha256 Model.EcIface Model.HashApi Model.AesApi Model.Keys Model.Ecies Spec.Bie1.
 Local Open Scope Z_scope.
 
 Definition E := ec_fast.
@@ -81,10 +83,20 @@ Definition eph_scalar (msg : bytes) : Z := 1 + (be_Z (sha256 msg)) mod (secp_n -
 
 Definition run (op : string) (args : list string) : string :=
   match op, args with
-  | "ecies.encrypt", [a; bp; m; x] =>
-      match arg_priv a, arg_pub bp, expand m, arg_bool x with
-      | KGood d, KGood (pb, B), Some msg, Some excl => out3 (impl_encrypt d pb msg excl) (spec_encrypt d B msg excl) "-"
-      | KBad, _, _, _ | _, KBad, _, _ | _, _, None, _ | _, _, _, None => "BADARG"
+  | "ecies.encrypt", [a; cf; bp; m; x] =>
+      match arg_priv a, arg_bool cf, arg_pub bp, expand m, arg_bool x with
+      | KGood d, Some _, KGood (pb, B), Some msg, Some excl => out3 (impl_encrypt d pb msg excl) (spec_encrypt d B msg excl) "-"
+      | KBad, _, _, _, _ | _, None, _, _, _ | _, _, KBad, _, _ | _, _, _, None, _ | _, _, _, _, None => "BADARG"
+      | _, _, _, _, _ => "ERR|-|-"
+      end
+  | "ecies.encrypt_wif", [w; bp; m; x] =>
+      match expand w, arg_pub bp, expand m, arg_bool x with
+      | Some wb, KGood (pb, B), Some msg, Some excl =>
+          match from_wif (string_of_bytes wb) with
+          | Ok k => out3 (impl_encrypt (sk_scalar k) pb msg excl) (spec_encrypt (sk_scalar k) B msg excl) "-"
+          | _ => "ERR|-|-"
+          end
+      | None, _, _, _ | _, KBad, _, _ | _, _, None, _ | _, _, _, None => "BADARG"
       | _, _, _, _ => "ERR|-|-"
       end
   | "ecies.pub", [a; bp; m] =>
@@ -149,7 +161,7 @@ Definition run (op : string) (args : list string) : string :=
       | _, _ => "ERR|-|-"
       end
   | _, _ => match op with
-            | "ecies.encrypt" | "ecies.pub" | "ecies.decrypt" | "ecies.parse" | "ecies.flip" | "ecies.self" | "ecies.ephemeral" => "BADARG"
+            | "ecies.encrypt" | "ecies.encrypt_wif" | "ecies.pub" | "ecies.decrypt" | "ecies.parse" | "ecies.flip" | "ecies.self" | "ecies.ephemeral" => "BADARG"
             | _ => "BADOP"
             end
   end.
